@@ -587,7 +587,7 @@ def common_cols_fn(text):
     b = b0[a.start():z.start()]
     b, n0 = re.subn(r"(\w+)\s*\.col_names\s*\.iter\(\)\s*\.map\(\s*\|\(\s*id\s*,\s*name\s*\)\|\s*\(\s*name\.clone\(\)\s*,\s*\*id\s*\)\s*\)\s*\.collect\(\)", r"invert_names(\1)", b)
     b = b.replace("HashMap<String, u64>", "NameIndex").replace("vec![]", "Vec::new()")
-    b, n1 = re.subn(r"for\s+\(\s*lhs_id\s*,\s*lhs_name\s*\)\s+in\s+&lhs\.col_names\s*\{",
+    b, n1 = re.subn(r"for\s+\(\s*lhs_id\s*,\s*lhs_name\s*\)\s+in\s+(?:&lhs\.col_names|lhs\.col_names\.iter\(\))\s*\{",
                     "for c_ in 0..lhs.col_names.len()\n    invariant rhs_name_to_id.src@ == rhs.col_names@, common_cols@ =~= pairs(lhs.col_names@, rhs.col_names@, c_ as int),\n"
                     "  {\n    let lhs_id = &lhs.col_names[c_].0; let lhs_name = &lhs.col_names[c_].1;\n    proof { reveal_with_fuel(pairs, 2); }", b)
     b = re.sub(r"(\w+)\.iter\(\)\.map\(\s*\|\(\s*_\s*,\s*(\w+)\s*\)\|\s*\*\2\s*\)\.collect\(\)", r"project_second(&\1)", b)
